@@ -3,8 +3,9 @@
 Monitors: post-conditions on every call of eqsig.im.calc_arias_intensity / calc_cav / calc_cav_dp / calc_isv /
 calc_integral_of_abs_velocity / calc_cumulative_abs_displacement / calc_integral_of_abs_acceleration /
 calc_unit_kinetic_energy (length, monotone, final value against the scalar quadrature of vf/oracles/quadrature.py;
-for CAVdp the window/gate oracle with the one-panel-per-window slack of the statement and the knife-edge rule; the
-signal object bit-for-bit unchanged by the call). Everything expected is derived from a snapshot of (values, dt)
+for records of one or two samples the verdict is counted a second time under its own clause; for CAVdp the window/gate
+oracle with the one-panel-per-window slack of the statement and the knife-edge rule; the signal object bit-for-bit
+unchanged by the call). Everything expected is derived from a snapshot of (values, dt)
 taken at call entry - never from the object's derived caches.
 Trace relations (sign reversal, alpha scaling, zero padding), twin-object / caller-array purity and "first result
 intact after a second call" / "f(A); f(B); f(A)" are evaluated by the driver over the monitored calls; so are the
@@ -87,6 +88,13 @@ RULE = ('cases = (record, dt) pairs driven through the public eqsig.im functions
         'measures on the copy and on the original, in both orders. f(A); f(B); f(A): B of the same or another length, the '
         'third call on the same or a new object. Silent (all-zero) records and strictly one-signed records (no zero, no sign '
         'change) in both parts. '
+        'Degenerate records (round 4): records of ONE sample (three in five) and TWO samples (second sample 0 / equal / '
+        'opposite / random / 1e-9 / -3 times the first) whose first sample is not zero (1e-3..1e3, some 1e-12..1e12, whole '
+        'numbers), in all container forms in turn incl. bool array / list of bools (a flag channel: 1.0 where set), steps from '
+        '{0.01, 0.005, 0.02, 0.0025, 0.1, 1, 0.5, 2, 1/3, 1/128, 1/49, 7.3e-4, 12.5}, log-uniform 1e-6..1e3 and gen.dt as float '
+        '/ np.float64 / np.float32 / int, through EVERY measure (positionally, by keyword, generate_cumulative_stats, '
+        'eqsig.Signal for the acceleration-based ones) with the sign / scale / zero-pad relations, and reached on a warm '
+        'object (longer record -> reset_values(short); short -> longer -> short); bool records also in the quadrature part. '
         'distinct = digest(values, dt, part); non-trivial = record with a non-zero sample.')
 ASSUMPTIONS = ['NaN-free real records, n >= 1, dt > 0; complex-typed records (raw fas2signal output) are counted, never judged',
                'a record is the sequence of real numbers its container holds: integer containers of any width are '
@@ -95,8 +103,12 @@ ASSUMPTIONS = ['NaN-free real records, n >= 1, dt > 0; complex-typed records (ra
                'velocity is, by definition (C08), the cumulative trapezoid of the record with v[0]=0; the oracle '
                'computes it from (values, dt) at call entry and never reads the object\'s cached series; '
                'generate_displacement_and_velocity_series(trap=False) is not driven',
-               '"rectangle sum" does not fix the side: all-sample, left and right sums are all accepted for the '
-               '|a| and |v| integrals',
+               '"rectangle sum" does not fix the side (all-sample, left or right sum), but it is ONE rule for all records: the '
+               'rule(s) that reproduce the tree\'s |a| and |v| integrals on three exactly representable probe records of 3-5 '
+               'samples (where the three sums differ) are the ones every record is judged with, the one- and two-sample '
+               'records included (every-sample rule: int|a| of a one-sample record is |a0|*dt, not 0); if no rule fits the '
+               'probes all three stay accepted',
+               'a bool record is the sequence 1.0 (True) / 0.0 (False), like an integer container',
                'CAVdp is judged only when 1/dt is an integer up to rounding and the record spans >= 2 s; '
                'the gate is decided strictly only for records built in g units whose a/9.81 reproduces them exactly, '
                'otherwise a window maximum within 4 ulp of 0.025 may fall on either side',
@@ -146,9 +158,10 @@ STATE = 'state.first-result-intact'
 THIRD = 'state.f(A);f(B);f(A)-third==first'
 FRESH = 'history.series==fresh-object(values,dt)'
 PROTO = 'purity.copy/deepcopy/pickle-independent'
+SHORT = 'short-record(n<=2).series==defining-quadrature'
 
 
-def _mins(f, cd, rel, pad, pur, twin, state, derived, ctor, fresh, proto, third):
+def _mins(f, cd, rel, pad, pur, twin, state, derived, ctor, fresh, proto, third, short):
     m = {}
     for k in ('arias', 'cav', 'isv', 'abs_acc', 'abs_vel', 'cad', 'uke'):
         m[FINAL_CLAUSE[k]] = f
@@ -159,13 +172,13 @@ def _mins(f, cd, rel, pad, pur, twin, state, derived, ctor, fresh, proto, third)
               'cavdp.gate-decided-exactly': int(cd * 0.06),
               'relation.sign': rel, 'relation.scale.pow2': rel, 'relation.scale.random': rel, 'relation.zero-pad': pad,
               PURITY: pur, OWNS: pur, TWIN: twin, STATE: state, DERIVED: derived, DT_KEPT: ctor,
-              FRESH: fresh, PROTO: proto, THIRD: third})
+              FRESH: fresh, PROTO: proto, THIRD: third, SHORT: short})
     return m
 
 
 # about 50% of what a normal run reaches
-MIN_EVALS = {'quick': _mins(5500, 1600, 8000, 1500, 45000, 120, 900, 150, 8000, 19000, 160, 900),
-             'thorough': _mins(110000, 27000, 160000, 30000, 900000, 2400, 18000, 3000, 160000, 380000, 3300, 18000)}
+MIN_EVALS = {'quick': _mins(5500, 1600, 8000, 1500, 45000, 120, 900, 150, 8000, 19000, 160, 900, 16000),
+             'thorough': _mins(110000, 27000, 160000, 30000, 900000, 2400, 18000, 3000, 160000, 380000, 3300, 18000, 260000)}
 
 
 def _sig(args, kwargs):
@@ -233,6 +246,34 @@ def _real_record(acc_in):
     return np.asarray(a, dtype=float)
 
 
+SIDE = {}      # 'abs_acc' / 'abs_vel' / 'cad' -> the rectangle rules ('all', 'left', 'right') the tree under test uses
+PROBES = [([1.0, -2.0, 4.0], 1.0), ([3.0, 0.5, -0.25, 2.0, 5.0], 0.25), ([-0.5, 8.0, 1.0, 1.0], 2.0)]
+
+
+def _probe_sides(eqsig):
+    """"rectangle sums" does not say which samples are counted (all / left / right), but it is ONE rule for every record:
+    the rule(s) that reproduce the tree's results on three exactly representable records of 3-5 samples, where the three
+    sums differ, are the ones every record - the one- and two-sample records included - is judged with. No rule fits all
+    probes (or a probe raises): nothing is narrowed; the final-value clauses of ordinary records decide."""
+    SIDE.clear()
+    with attach.paused():
+        for key in ('abs_acc', 'abs_vel', 'cad'):
+            fit = {'all', 'left', 'right'}
+            try:
+                for rec, h in PROBES:
+                    got = float(np.asarray(getattr(eqsig.im, FN[key])(eqsig.AccSignal(np.array(rec), h)), dtype=float)[-1])
+                    y = rec if key == 'abs_acc' else Q.velocity(rec, h)[0]
+                    fit &= {side for side, ref in Q.rectangle_finals(y, h).items() if abs(got - ref) <= 1e-12 * abs(ref)}
+            except Exception:
+                fit = set()
+            if fit:
+                SIDE[key] = fit
+
+
+def _rect_refs(key, finals):
+    return sorted(set(finals[side] for side in (SIDE.get(key) or finals)))
+
+
 def _shape_clauses(ctx, key, acc, dt, result, n):
     """length and monotonicity; returns the series as float array, or None when there is no final value to judge."""
     try:
@@ -278,14 +319,14 @@ def check_quadrature(ctx, key, acc_in, dt, result):
     elif key == 'cav':
         refs = [Q.cav_final(acc.tolist(), dt)]
     elif key == 'abs_acc':
-        refs = sorted(set(Q.rectangle_finals(acc.tolist(), dt).values()))
+        refs = _rect_refs(key, Q.rectangle_finals(acc.tolist(), dt))
     else:
         v, verr, sumabs_v = _velocity(acc, dt, eps)
         if key == 'isv':
             refs = [Q.isv_final(v, dt)]
             atol = 2 * verr * sumabs_v * dt
         elif key in ('abs_vel', 'cad'):
-            refs = sorted(set(Q.rectangle_finals(v, dt).values()))
+            refs = _rect_refs(key, Q.rectangle_finals(v, dt))
             atol = verr * n * dt
         else:
             ref, sumabs_k = Q.unit_kinetic_energy_final(v)
@@ -297,6 +338,16 @@ def check_quadrature(ctx, key, acc_in, dt, result):
               '%s final value %r, defining quadrature of the record gives %r (n=%d dt=%r dtype=%s%s)'
               % (FN[key], got, refs, n, dt, np.asarray(acc_in).dtype,
                  ', step %d of a %s scenario' % (len(SCEN['cur'].get('ops', [])), SCEN['cur']['kind']) if SCEN['cur'] else ''))
+    if n <= 2:
+        # the degenerate records counted on their own: a one-sample record spans no trapezoid panel (Arias, CAV, ISV, unit
+        # kinetic energy and - because v[0] = 0 - the |v| sums are 0) but it does hold one rectangle: int|a| = |a0|*dt under
+        # the every-sample rule the tree uses on longer records
+        ctx.check(okk and r.shape[0] == n, SHORT,
+                  lambda: _wit(key, acc_in, dt, got_final=got, got_shape=list(r.shape), expected=refs, atol=atol, rtol=rtol,
+                               rectangle_side=sorted(SIDE.get(key) or [])),
+                  '%s on a record of %d sample(s) %r (dt=%r, %s): series %r, defining quadrature gives a final value of %r%s'
+                  % (FN[key], n, acc.tolist(), dt, np.asarray(acc_in).dtype, r.tolist()[:4], refs,
+                     ' (rectangle rule of the longer records: %s)' % '/'.join(sorted(SIDE[key])) if SIDE.get(key) else ''))
 
 
 def cavdp_in_quantifier(acc, dt):
@@ -464,6 +515,7 @@ def install(ctx):
     for key, name in FN.items():
         attach.wrap(eqsig.im, name, _mk_post(key), pre=_pre)
     attach.wrap_method(eqsig.Signal, '__init__', _post_init)
+    _probe_sides(eqsig)
 
 
 # ---------------------------------------------------------------------------------------------------- histories
@@ -1080,6 +1132,9 @@ def to_container(rng, x, kind):
     if kind == 'f32':
         c = x.astype(np.float32)
         return c, c.astype(float)
+    if kind in ('bool', 'list-bool'):          # a trigger / clipping-flag channel: the record is 1.0 where set, 0.0 elsewhere
+        c = (x > 0) if np.any(x > 0) else (x != 0)
+        return (c if kind == 'bool' else [bool(v) for v in c]), c.astype(float)
     if kind == 'list':
         return x.tolist(), x
     if kind == 'tuple':
@@ -1491,8 +1546,8 @@ QUAD_N = [1, 2, 3, 4, 5, 7, 8, 9, 13, 15, 16, 17, 31, 32, 33, 50, 63, 64, 65, 12
 QUAD_N_P = np.array([1.0 / (1.0 + k / 400.0) for k in QUAD_N])
 QUAD_N_P = QUAD_N_P / QUAD_N_P.sum()
 CONTAINERS = ['f64', 'list', 'tuple', 'list-int', 'mixed', 'i64', 'i32', 'i16', 'i8', 'u8', 'u16', 'f32', 'view', 'rview',
-              'readonly']
-CONTAINER_P = [0.40, 0.05, 0.03, 0.03, 0.03, 0.05, 0.04, 0.05, 0.05, 0.05, 0.05, 0.08, 0.04, 0.02, 0.03]
+              'readonly', 'bool']
+CONTAINER_P = [0.38, 0.05, 0.03, 0.03, 0.03, 0.05, 0.04, 0.05, 0.05, 0.05, 0.05, 0.08, 0.04, 0.02, 0.03, 0.02]
 
 
 def quadrature_case(rng, n=None):
@@ -1642,6 +1697,66 @@ def quad_block(ctx, eqsig, rng, x, dt, cls, ckind, c):
         relation(ctx, eqsig, xr, dt, 'zero-pad', k=int(rng.choice([1, 2, 7, 50, 300])), base=base, cont=cont)
 
 
+SHORT_CONTAINERS = CONTAINERS + ['list-bool']
+SHORT_DT = [0.01, 0.005, 0.02, 0.0025, 0.1, 1.0, 0.5, 2.0, 1.0 / 3, 1.0 / 128, 1.0 / 49, 7.3e-4, 12.5]
+
+
+def short_case(rng, c):
+    """A record of ONE sample (three cases in five) or TWO samples whose first sample is not zero, in the container form
+    number c (all forms in turn), with a step from a fixed list / log-uniform 1e-6..1e3 as float / np.float64 /
+    np.float32 / int. Returns (x, dt, class, container kind)."""
+    ckind = SHORT_CONTAINERS[c % len(SHORT_CONTAINERS)]
+    n = 1 if rng.random() < 0.6 else 2
+    a0 = float(rng.choice([-1.0, 1.0])) * (float(10.0 ** rng.uniform(-3, 3)) if rng.random() < 0.8 else float(10.0 ** rng.uniform(-12, 12)))
+    if rng.random() < 0.3:
+        a0 = float(np.round(a0)) or 1.0                              # whole numbers (counts)
+    if ckind in ('u8', 'u16', 'bool', 'list-bool'):
+        a0 = abs(a0)                                                 # these forms map the most negative value to 0 / False
+    if ckind == 'mixed' and abs(a0) < 1.0:
+        a0 = float(np.sign(a0)) * (1.0 + abs(a0))                    # its first entry is rounded to an int: keep it non-zero
+    x = [a0]
+    tag = 'one-sample'
+    if n == 2:
+        second = ['zero', 'same', 'opposite', 'random', 'small', 'large'][int(rng.integers(6))]
+        x.append({'zero': 0.0, 'same': a0, 'opposite': -a0, 'random': float(rng.normal()) * abs(a0), 'small': a0 * 1e-9,
+                  'large': -a0 * 3.0}[second])
+        tag = 'two-sample(second %s)' % second
+    u = rng.random()
+    dt = float(SHORT_DT[int(rng.integers(len(SHORT_DT)))]) if u < 0.6 else float(10.0 ** rng.uniform(-6, 3)) if u < 0.85 else gen.dt(rng)
+    u = rng.random()
+    if u < 0.08:
+        dt = np.float64(dt)
+    elif u < 0.16:
+        dt = np.float32(dt)
+    elif u < 0.22:
+        dt = int(rng.choice([1, 2, 5]))
+    return np.array(x), dt, tag, ckind
+
+
+def short_block(ctx, eqsig, rng, c):
+    """One/two-sample records through EVERY measure (positionally, by keyword, through generate_cumulative_stats, on
+    eqsig.Signal for the acceleration-based ones) with the sign / scale / zero-padding relations; then the same record
+    reached on an object with a history (a longer record replaced by the short one and the other way round)."""
+    x, dt, tag, ckind = short_case(rng, c)
+    cont, xr = to_container(rng, x, ckind)
+    if xr[0] == 0:
+        ctx.observe('short-record-first-sample-lost-in-container(not driven)')
+        return
+    quad_block(ctx, eqsig, rng, x, dt, 'short-' + tag, ckind, c)
+    cont, xr = to_container(rng, x, ckind if ckind != 'f32' or float(np.max(np.abs(x))) < 1e12 else 'f64')
+    if c % 3 == 0:
+        run_history(ctx, eqsig, cont, dt, [['call', k] for k in ACC_KEYS], sigcls='Signal')
+    amp = float(np.max(np.abs(xr)))
+    longer = _other_record(rng, int(rng.choice([2, 3, 17, 200])), amp)
+    if c % 2 == 0:       # warm object holding a longer record, then the short one
+        ops = [['call', k] for k in QUAD_KEYS] + [['reset_values', cont]] + [['call', k] for k in rng.permutation(QUAD_KEYS).tolist()]
+        run_history(ctx, eqsig, longer, dt, ops, twin=True)
+    else:                # warm object holding the short record, then a longer one, then the short one again
+        ops = ([['call', k] for k in rng.permutation(QUAD_KEYS).tolist()] + [['reset_values', longer]] +
+               [['call', k] for k in QUAD_KEYS] + [['reset_values', cont], ['read', 'velocity']] + [['call', k] for k in QUAD_KEYS])
+        run_history(ctx, eqsig, cont, dt, ops, twin=True)
+
+
 def run_shard(ctx):
     warnings.simplefilter('ignore')
     eqsig = core.import_eqsig()
@@ -1658,6 +1773,11 @@ def run_shard(ctx):
     n_long = 1 if quick else 4
     n_assign = (640 if quick else 12800) // ctx.nshards
     n_proto = (336 if quick else 6720) // ctx.nshards
+    n_short = (544 if quick else 8160) // ctx.nshards                 # 2 (quick) / 30 (thorough) rounds over the 17 container forms
+    # -- one- and two-sample records, every container form --------------------------------------------------------
+    off = int(rng.integers(len(SHORT_CONTAINERS)))
+    for c in range(n_short):
+        short_block(ctx, eqsig, rng, c + off)
     # -- CAVdp part -------------------------------------------------------------------------------------------
     for c in range(n_cavdp + 1):
         x, dt, cls, exact = cavdp_case(rng, long=(c == n_cavdp))
